@@ -855,7 +855,13 @@ pub fn execute(sc: &Sc, ctx: &mut Ctx) -> Result<(), String> {
     }
     // ---- invariants
     for t in 0..sc.tasks.len() {
+        // a decoder working on a cut message or under a quota: its outcomes depend on the message's
+        // length / table size, which may legitimately differ between histories
+        let mut cut_decoder = false;
         for (s, stage) in sc.tasks[t].stages.iter().enumerate() {
+            if let Stage::NewDecoder { truncate, quota } = stage {
+                cut_decoder = truncate.is_some() || quota.is_some();
+            }
             let (Some(o), Some(a)) = (outs[t].get(s), alone[t].get(s)) else { continue };
             let desc = || {
                 let hist: Vec<String> = history_before(sc, t, s);
@@ -872,7 +878,11 @@ pub fn execute(sc: &Sc, ctx: &mut Ctx) -> Result<(), String> {
                 continue;
             }
             // (c) parity with the reference execution of the task alone
-            if sc.prop == "C01" {
+            // Whether a writer that stops after k bytes cuts the message depends on the message's
+            // length, and the length may legitimately differ between histories (the same Rust type
+            // can get a different but equivalent table layout, ser.rs:23-25): no parity there.
+            let length_dependent = matches!(stage, Stage::Serialize { plan } if plan.stop.is_some()) || (cut_decoder && matches!(stage, Stage::NewDecoder { .. } | Stage::Get | Stage::GetWrong(_) | Stage::Done));
+            if sc.prop == "C01" && !length_dependent {
                 if o.class != a.class {
                     if o.class == Class::Skipped || a.class == Class::Skipped {
                         continue; // consequence of an earlier difference, already reported there
